@@ -624,7 +624,7 @@ SUBS = [
     Sub('manual_agrees', check_manual, enumerate=enum_manual, exhaustive=True),
     Sub('dest_matrix', check, enumerate=gen.dest_matrix, exhaustive=True, render=render_for_evidence),
     Sub('read_matrix', check, enumerate=gen.read_matrix, exhaustive=True, render=render_for_evidence),
-    Sub('paths', check, strategy=lambda tier: gen.cases(tier), budget={'quick': 4000, 'thorough': 100000},
+    Sub('paths', check, strategy=lambda tier: gen.cases(tier), budget={'quick': 4000, 'thorough': 80000},
         render=render_for_evidence),
     Sub('subprocess_differential', check_subprocess, enumerate=enum_subprocess, exhaustive=False,
         render=render_for_evidence),
